@@ -23,6 +23,7 @@ def c02_case(draw):
         # logs of a possibly negative rate are NaN from the start; keep the comparison meaningful
         sc["inputs"] = [f for f in sc["inputs"] if "log" not in f] or ["underlier_spot"]
     sc["pert_seed"] = draw(seed_s)
+    sc["grad"] = draw(st.booleans())  # training evaluates the hedge with gradients enabled
     return sc
 
 
@@ -65,9 +66,9 @@ def check_nonanticipative(case, ctx):
         simulate(case, objs)
     uls = list(deriv.underliers())
     gen = torch.Generator().manual_seed(case["pert_seed"])
-    with torch.no_grad():
+    with torch.set_grad_enabled(bool(case.get("grad", False))):
         with ctx.sut("C02/compute_hedge"):
-            H0 = hedger.compute_hedge(deriv, hedge=hedge)
+            H0 = hedger.compute_hedge(deriv, hedge=hedge).detach()
         N, Hn, Tn = H0.shape
         spot_shape = hedge_list(objs)[0].spot.shape
         ctx.check((N, Tn) == tuple(spot_shape), "C02/shape", f"hedge shape {tuple(H0.shape)} vs spot {tuple(spot_shape)}")
@@ -80,13 +81,13 @@ def check_nonanticipative(case, ctx):
         f0 = []
         for f in indep:
             with ctx.sut("C02/feature/" + fname(f)):
-                f0.append(f.get(None))
+                f0.append(f.get(None).detach())
         changed_later = False
         for t in range(0, Tn - 1):
             saved = perturb_future(uls, t, gen)
             try:
                 with ctx.sut("C02/compute_hedge"):
-                    H1 = hedger.compute_hedge(deriv, hedge=hedge)
+                    H1 = hedger.compute_hedge(deriv, hedge=hedge).detach()
                 if not same(H1[..., : t + 1], H0[..., : t + 1]):
                     bad = (~((H1[..., : t + 1] == H0[..., : t + 1]) | (H1[..., : t + 1].isnan() & H0[..., : t + 1].isnan()))).nonzero()[0].tolist()
                     ctx.fail("C02/anticipates", f"hedge for steps 0..{t} changed when data at steps > {t} was perturbed "
@@ -96,8 +97,8 @@ def check_nonanticipative(case, ctx):
                     changed_later = True
                 for f, g0 in zip(indep, f0):
                     with ctx.sut("C02/feature/" + fname(f)):
-                        g1 = f.get(None)
-                        g1t = f.get(t)
+                        g1 = f.get(None).detach()
+                        g1t = f.get(t).detach()
                     if not same(g1[:, : t + 1], g0[:, : t + 1]):
                         ctx.fail("C02/feature-anticipates", f"feature {fname(f)} get(None)[:, :{t + 1}] depends on later data", cut=t, feature=fname(f))
                         return
@@ -108,7 +109,7 @@ def check_nonanticipative(case, ctx):
                 restore(saved)
     names = set(map(str, case["inputs"]))
     ctx.nontrivial(changed_later)
-    ctx.cls("branch:" + ("stepwise" if feats.is_state_dependent() else "vectorised"), "model:" + case["model"],
+    ctx.cls("grad:" + str(bool(case.get("grad", False))), "branch:" + ("stepwise" if feats.is_state_dependent() else "vectorised"), "model:" + case["model"],
             "deriv:" + case["deriv"]["type"], "ul:" + case["ul"]["type"])
     if names & PATH_STAT or case["model"] in ("bs", "ww") and case["deriv"]["type"] in ("LookbackOption", "AmericanBinaryOption"):
         ctx.cls("feature:path-statistic")
